@@ -182,8 +182,16 @@ pub fn gen_history(rng: &mut impl rand::RngCore, depth: usize, len: usize, with_
                 }
             }
             73..=80 => {
-                let l = [1usize, 8, 33, 200][rng.gen_range(0..4)];
-                POp::Meta(rand_bytes(rng, l))
+                // metadata values: fresh bytes of several lengths, the empty value (clears it) and a fixed value that
+                // is written repeatedly (re-writing what may already be stored, also across a reopen)
+                match rng.gen_range(0..6) {
+                    0 => POp::Meta(vec![]),
+                    1 => POp::Meta(b"same-metadata".to_vec()),
+                    _ => {
+                        let l = [1usize, 8, 33, 200][rng.gen_range(0..4)];
+                        POp::Meta(rand_bytes(rng, l))
+                    }
+                }
             }
             81..=93 => POp::Flush,
             94..=96 if with_reset => POp::Reset,
@@ -304,6 +312,9 @@ fn reopen_monitor(rep: &mut Rep, seed: u64, n_hist: usize) {
             done.push(op.show());
             match res {
                 Ok(Ok(())) => apply_model(&mut m, op),
+                // init_tree_with_leaves is documented as a reset followed by a write: when the write part is refused
+                // (e.g. no leaves given) the reset has already happened
+                Ok(Err(_)) if matches!(op, POp::Init(_)) => m.reset(),
                 Ok(Err(_)) => {} // refused (e.g. delete above the mark): state must be unchanged, checked below
                 Err(p) => {
                     rep.violation(format!("{}:panic:{}", op.kind(), p.file()), json!({"history": done, "panic": p.msg, "depth": depth}));
@@ -353,6 +364,33 @@ fn reopen_monitor(rep: &mut Rep, seed: u64, n_hist: usize) {
                 }
                 since_reset = false;
                 done.push("flush+drop+reopen".into());
+                // first update of the new session: clear or re-write the metadata (an update that equals what an empty
+                // in-memory copy would suggest is already there), then check it sticks across another reopen
+                if rng.gen_range(0..3) == 0 {
+                    let op2 = if rng.gen_bool(0.5) { POp::Meta(vec![]) } else { POp::Meta(m.metadata.clone()) };
+                    if let Ok(Ok(())) = apply(slot.as_mut().unwrap(), depth, &op2) {
+                        apply_model(&mut m, &op2);
+                    }
+                    done.push(op2.show());
+                    let _ = apply(slot.as_mut().unwrap(), depth, &POp::Flush);
+                    drop(slot.take());
+                    slot = open(depth, &path, variant).ok();
+                    if let Some(r3) = slot.as_mut() {
+                        rep.ev();
+                        if let Ok(o) = observe(r3, &watch(&m, &[])) {
+                            if let Some(what) = compare(&o, &m) {
+                                rep.violation(format!("reopen:{what}-differs"), json!({"history": done, "depth": depth, "note": "after a metadata update as the first operation of a reopened session"}));
+                                diverged = true;
+                                break;
+                            }
+                        }
+                    } else {
+                        rep.violation("reopen:failed", json!({"history": done}));
+                        diverged = true;
+                        break;
+                    }
+                    done.push("flush+drop+reopen".into());
+                }
             } else if k % 5 == 4 {
                 // the (possibly reopened) tree keeps following the model
                 let pos = watch(&m, &[]);
